@@ -40,7 +40,8 @@ NOISE = ["/* c */", "/** doc **/", "/***/", "/**/", "/* a", "// c", "// #endif",
 NOISE_SKIPPED_ONLY = ['"/*"', "'\"'", "don't /* c */", '"unterminated', "@ $ ` \\ stray", "/* x */ text /* y */"]
 # (cfg, simulate traces per worker or None)
 CFGS = {"quick": [("CondIncl_quick", None), ("CondIncl_deep", None), ("CondIncl_sim", 1500)],
-        "thorough": [("CondIncl_thorough", None), ("CondIncl_deep_thorough", None), ("CondIncl_sim", 40000)]}
+        "thorough": [("CondIncl_quick", None), ("CondIncl_thorough", None), ("CondIncl_deep_thorough", None),
+                     ("CondIncl_sim", 20000)]}
 BATCH = 2500
 
 
